@@ -6,6 +6,7 @@ from ..core import astq
 from ..core.cfg import guards_of
 from ..core.dataflow import assigned_value
 from . import common as K
+from . import flowalg
 from . import discretise
 
 EXPLANATION = (
@@ -27,6 +28,8 @@ def run(ctx):
     ctx.each(r05e, ctx, repo)
     ctx.each(r05f, ctx, repo)
     ctx.each(r05g, ctx, repo)
+    ctx.each(flowalg.duration_rule, ctx, repo, "R05h")
+    ctx.each(flowalg.flush_formula_rule, ctx, repo, "R05i")
 
 
 SITES = (("model", "TimedCompartment.preallocate"), ("model", "TimedLink.preallocate"))
